@@ -2,6 +2,7 @@
 import argparse
 import importlib
 import os
+import subprocess
 import sys
 import traceback
 from pathlib import Path
@@ -25,9 +26,16 @@ def main():
     ctx = core.Ctx(pid, mod.LEVEL, a.tier, seed, a.replay)
     try:
         mod.run(ctx)
-    except Exception:  # infrastructure failure, never a VIOLATION
+    except (OSError, MemoryError, subprocess.SubprocessError):  # infrastructure failure, never a VIOLATION
         traceback.print_exc()
         ctx.infra("harness exception: " + traceback.format_exc(limit=1).strip().splitlines()[-1])
+    except Exception:  # noqa: BLE001
+        # The harness runs without exceptions on the tree it was built for (every tier, several seeds), so
+        # a KeyError/IndexError/TypeError/... while it digests what the implementation returned means the
+        # implementation no longer behaves as the model-implementation correspondence expects: that is a
+        # broken correspondence (reported with whatever failing inputs were found before the exception).
+        traceback.print_exc()
+        ctx.broken.append("harness-could-not-digest-implementation-behaviour: " + traceback.format_exc(limit=1).strip().splitlines()[-1][:200])
     sys.exit(ctx.finish())
 
 
